@@ -7,10 +7,11 @@ import Paho.Driver.Reader
 import Paho.Driver.LF
 import Paho.Driver.Dispatch
 import Paho.Driver.Helpers
+import Paho.Driver.Threads
 open Paho.Driver
 
 def drivers : List (String × Drv) :=
-  [("trie", trieDrv), ("mid", midDrv), ("validate", validateDrv), ("session", sessionDrv), ("session-inv", sessionInvDrv), ("props", propsDrv), ("codec", codecDrv), ("decode", decodeDrv), ("reader", readerDrv), ("loopforever", lfDrv), ("dispatch", dispatchDrv), ("helpers", helpersDrv)]
+  [("trie", trieDrv), ("mid", midDrv), ("validate", validateDrv), ("session", sessionDrv), ("session-inv", sessionInvDrv), ("props", propsDrv), ("codec", codecDrv), ("decode", decodeDrv), ("reader", readerDrv), ("loopforever", lfDrv), ("dispatch", dispatchDrv), ("helpers", helpersDrv), ("threads", threadsDrv)]
 
 def main (args : List String) : IO UInt32 := do
   match args with
